@@ -436,8 +436,32 @@ func c05free(c *core.Ctx, record bool) {
 	// a quarter of the cases start on a brand-new zero-value set, with no sequential prefix:
 	// the very first calls ever made on the value are the concurrent ones
 	init, pre := map[int]bool{}, []string{"(brand-new set, no prefix)"}
-	if !r.Chance(1, 4) {
+	// one case in twelve: the set also holds 1025..3000 values that no call of the round
+	// names (listed once, so that they sit wherever listed values sit); they must all be
+	// there afterwards, and every Len of the round counts them
+	full := univ
+	ballast := 0
+	if r.Chance(1, 12) {
+		ballast = r.Range(1025, 3000)
+		if r.Chance(1, 4) {
+			ballast = r.Range(200, 1030)
+		}
+		full = append([]int(nil), univ...)
+		for i := 0; i < ballast; i++ {
+			s.Add(10000 + i)
+			full = append(full, 10000+i)
+		}
+		s.Len()
+		c.Count("rounds_on_a_set_with_200_to_3000_bystander_values", 1)
+	}
+	if ballast > 0 || !r.Chance(1, 4) {
 		init, pre = c05prefix(r, &s, univ)
+		for i := 0; i < ballast; i++ {
+			init[10000+i] = true
+		}
+		if ballast > 0 {
+			pre = append([]string{fmt.Sprintf("Add(10000..%d);Len()", 10000+ballast-1)}, pre...)
+		}
 	}
 	ng, nops := r.Range(2, 8), r.Range(10, 120)
 	if !record {
@@ -449,7 +473,7 @@ func c05free(c *core.Ctx, record bool) {
 		ng, nops = r.Range(2, 6), r.Range(10, 60)
 	}
 	policy := tierAHooks(r)
-	allowMulti := r.Chance(1, 5)
+	allowMulti := r.Chance(1, 5) && ballast == 0
 	defer hooksOff()
 	var clk *clock
 	if record {
@@ -486,7 +510,7 @@ func c05free(c *core.Ctx, record bool) {
 	c.Count(mode+"_goroutines", int64(ng))
 	c.Count(mode+"_calls", int64(ng*nops))
 	extra := map[string]any{"prefix": pre, "goroutines": ng, "ops_each": nops, "hook_policy": policy, "gomaxprocs": runtime.GOMAXPROCS(0)}
-	if !judgeSet(c, mode, &s, univ, init, logs, extra) {
+	if !judgeSet(c, mode, &s, full, init, logs, extra) {
 		return
 	}
 	c.NonTrivial(core.Mix(c.Seed, uint64(ng), uint64(nops)))
